@@ -404,8 +404,9 @@ def run(ctx: Context, rep) -> None:
                    message="the npz decoder must reject content that is not "
                    "an npz archive")
     rep.floor("C07.npz-strict", n_loads, 2, "numpy.load sites")
-
-
+    # nothing read from the dataset's files / the environment is memoised
+    from sa.rules import shared as _shm
+    _shm.check_no_memo(ctx, rep, "C07.memo")
 
 _LP = "src/sedpack/io/itertools/lazy_pool.py"
 _TRY = '''            try:
